@@ -32,7 +32,8 @@ TRUSTED = ['A1 float == real; A2 object arrays == float arrays',
            'chain rule: d/dt f(x0 + t u) at 0 == grad f(x0).u (mathematics)']
 ASSUMPTIONS = ['steps positive; step ratio 1/q with q in (0,1); moment matrix non-singular']
 NOT_DECIDED = ['accuracy envelope for nonlinear maps (C01/C02)']
-BOUNDED = ['view-returning-f: Jacobians of 7 affine functions that return (views of) their argument, all methods and orders, executed with the real numpy (aliasing between the value returned by f and internal work vectors is invisible to object arrays) -- not proved',
+BOUNDED = ['shapes-concrete: the complete pipeline (no stub of _extrapolate) on affine maps for m in {scalar,1,2,6} x n in {1,2,8} x k in {-,1,2,4}, four methods -- executed, not proved (the symbolic jac groups stub the selection stage, so shape handling inside it is only seen here)',
+           'view-returning-f: Jacobians of 7 affine functions that return (views of) their argument, all methods and orders, executed with the real numpy (aliasing between the value returned by f and internal work vectors is invisible to object arrays) -- not proved',
            'integer-x: integer-typed x (3 concrete x, 5 methods) compared with float x -- executed with the real numpy, not proved',
            'dimensions enumerated: quick n,m <= 3, k <= 2; thorough n in 1..8, m in 1..6, k in 1..4 (the property\'s range)']
 QUANTIFIED = 'A, b, x, per-coordinate steps h_j, q: universally quantified reals'
@@ -42,12 +43,13 @@ METHODS = ['central', 'forward', 'backward', 'complex', 'multicomplex']
 
 def dims(tier):
     if tier == 'quick':
-        return [(1, 1, None), (2, 3, None), (3, 2, None), (1, 3, None), ('scalar', 3, None), ('scalar', 1, None), (2, 3, 2), (3, 2, 1), (2, 2, 3)]
+        return [(1, 1, None), (2, 3, None), (3, 2, None), (1, 3, None), ('scalar', 3, None), ('scalar', 1, None), (2, 3, 2), (3, 2, 1), (2, 2, 3),
+                (1, 1, 1), (1, 1, 2), (2, 1, 1), (1, 2, 1)]          # the corner of the range: every extent 1
     out = []
     for n in (1, 2, 3, 5, 8):
         for m in ('scalar', 1, 2, 4, 6):
             out.append((m, n, None))
-    for n, m, k in [(2, 3, 2), (3, 2, 4), (1, 2, 3), (4, 1, 2), (8, 6, 1), (3, 3, 3), (2, 2, 2)]:
+    for n, m, k in [(2, 3, 2), (3, 2, 4), (1, 2, 3), (4, 1, 2), (8, 6, 1), (3, 3, 3), (2, 2, 2), (1, 1, 1), (1, 1, 4), (1, 6, 1), (8, 1, 1)]:
         out.append((m, n, k))
     return out
 
@@ -63,6 +65,7 @@ def groups(tier):
     out.append(('directionaldiff', ('dd',)))
     out.append(('integer-x', ('intx',)))
     out.append(('view-returning-f', ('views',)))
+    out.append(('shapes-concrete', ('shapes',)))
     out.append(('gradient-layout', ('layout',)))
     return out
 
@@ -266,13 +269,16 @@ def run_dd():
         old = core.Derivative
         core.Derivative = FakeDerivative
         try:
-            for shape in [(3,), (1,), (2, 2), (2, 3)]:
+            for shape, vshape in [((3,), None), ((1,), None), ((2, 2), None), ((2, 3), None), ((2, 3), (6,)), ((3, 1), (3,)), ((4,), (2, 2))]:
                 CTX.reset()
                 n = int(np.prod(shape))
                 x0 = np.empty(shape, dtype=object); v = np.empty(shape, dtype=object); A = np.empty(shape, dtype=object)
                 for idx in np.ndindex(shape):
                     s = '_'.join(map(str, idx))
                     x0[idx] = real('x' + s); v[idx] = real('v' + s); A[idx] = real('a' + s)
+                if vshape is not None:
+                    # the direction may come in any shape of the same size (e.g. the flat output of Gradient for a matrix x)
+                    v = v.reshape(vshape)
                 x0, v = x0.view(SymArr), v.view(SymArr)
                 b0 = real('b')
 
@@ -280,7 +286,7 @@ def run_dd():
                     return (asobj(z) * A).sum() + b0
                 rec['ret'] = real('RET')
                 opts = dict(method='forward', order=3, full_output=False)
-                tag = 'D%s:' % (shape,)
+                tag = 'D%s%s:' % (shape, '' if vshape is None else ',v%s' % (vshape,))
                 paths = explore(lambda: core.directionaldiff(f, x0, v, **opts), max_paths=8)
                 ok = len(paths) == 1 and paths[0].exc is None
                 solve.fact(tag + 'single-path', ok, note=str([repr(p.exc)[:100] for p in paths if p.exc][:1]))
@@ -290,13 +296,21 @@ def run_dd():
                 solve.fact(tag + 'returns-Derivative(g)(0)-unchanged', out is rec['ret'] and rec['at'] == 0)
                 solve.fact(tag + 'options-forwarded-unchanged', rec['options'] == opts)
                 t = real('t')
-                g_t = lift(rec['fun'](t)); g_0 = lift(rec['fun'](0))
+                try:
+                    g_t = lift(rec['fun'](t)); g_0 = lift(rec['fun'](0))
+                except NeedsConcrete:
+                    raise
+                except Exception as e:
+                    solve.fact(tag + 'g(t)==f(x0+t*v/|v|)-is-defined-for-a-direction-of-this-shape', False, note=repr(e)[:200])
+                    continue
+                solve.fact(tag + 'g(t)==f(x0+t*v/|v|)-is-defined-for-a-direction-of-this-shape', True)
                 nrm = SQRT(sum((lift(e) * lift(e) for e in asobj(v).ravel()), R(0)))
                 H = paths[0].hyps + list(CTX.facts) + [nrm.t > 0]
-                want = t * sum((lift(A[idx]) * lift(v[idx]) for idx in np.ndindex(shape)), R(0)) / nrm
+                vflat = list(asobj(v).ravel())
+                want = t * sum((lift(a_) * lift(v_) for a_, v_ in zip(A.ravel(), vflat)), R(0)) / nrm
                 solve.prove(tag + 'g(t)-g(0)==t*A.v/|v|_2', (g_t - g_0).t == want.t, H)
                 solve.prove(tag + 'g(0)==f(x0)', g_0.t == lift(f(x0)).t, H)
-            solve.twin('D:g(t)-g(0)==t*A.v(unnormalised)', (g_t - g_0).t == (t * sum((lift(A[idx]) * lift(v[idx]) for idx in np.ndindex(shape)), R(0))).t, H)
+            solve.twin('D:g(t)-g(0)==t*A.v(unnormalised)', (g_t - g_0).t == (t * sum((lift(a_) * lift(v_) for a_, v_ in zip(A.ravel(), list(asobj(v).ravel()))), R(0))).t, H)
         finally:
             core.Derivative = old
     return {}
@@ -401,7 +415,17 @@ def run_views():
     solve.fact('Jacobian-of-functions-returning-views-of-their-argument(identity,slices,reshape)[%d cases]' % cnt, not bad, kind='bounded', note=str(bad[:2])[:400])
     return {}
 
+def run_shapes():
+    import numdifftools as nd
+    from ndvc.concrete import jacobian_shape_cases
+    cnt, bad = jacobian_shape_cases(nd)
+    solve.fact('un-stubbed-Jacobian/Gradient-of-affine-maps:shape,value,record-over-the-corners-of-the-range[%d cases]' % cnt, not bad, kind='bounded', note=str(bad[:2])[:400])
+    return {}
+
+
 def run_group(args):
+    if args[0] == 'shapes':
+        return run_shapes()
     if args[0] == 'views':
         return run_views()
     if args[0] == 'layout':
@@ -414,6 +438,8 @@ def run_group(args):
 
 
 def replay_case(ob):
+    if ob['name'].startswith('shapes-concrete/'):
+        return dict(kind='C03.shapes')
     if ob['name'].startswith('view-returning-f/'):
         return dict(kind='C03.views')
     import re
